@@ -9,11 +9,11 @@ import vlib, hashcheck, aescheck, c12check
 
 HASH_PROPS = {
     # pid: (monitor prefixes that decide this property, reject %, Lean module, theorems)
-    "C06": (("C06-", "C08-"), 8, "IsalVerif.Props.C06",
+    "C06": (("C06-", "C08-"), 8, "IsalVerif.Props.C01Base",
             ["IsalVerif.HashMB.C06_step", "IsalVerif.HashMB.C06_inflight_iff_lane",
              "IsalVerif.HashMB.C06_flush_none_iff", "IsalVerif.HashMB.C06_status",
              "IsalVerif.HashMB.C06_total", "IsalVerif.HashMB.C06_flush_total", "IsalVerif.HashMB.C06_flush_count",
-             "IsalVerif.HashMB.C06_drain"]),
+             "IsalVerif.HashMB.C06_drain", "IsalVerif.HashMB.C06_base"]),
     "C11": (("C11-",), 30, "IsalVerif.Props.C11",
             ["IsalVerif.HashMB.C11_reject", "IsalVerif.HashMB.C11_unchanged", "IsalVerif.HashMB.C11_history",
              "IsalVerif.HashMB.C11_nopoison", "IsalVerif.HashMB.C11_reject_code",
@@ -1237,11 +1237,25 @@ def main():
         os.environ["VERIF_REPLAYING"] = "1"     # keep the replay files of earlier runs (the one being replayed among them)
     try:
         return CHECKS[a.pid](a.pid, a.tier, a.replay)
-    except Exception as e:  # machinery failure: report, do not pretend the property held
+    except Exception as e:
+        # A step of the machinery itself failed (a variant of the library no longer builds, a translator cannot read the
+        # code any more, a harness no longer links, ...).  On the unchanged tree this does not happen; on a changed tree the
+        # property is then no longer shown to hold: report it as such, naming the step, rather than exiting silently.
         import traceback
-        traceback.print_exc()
-        print("CHECK-ERROR property=%s %s" % (a.pid, e))
-        return 2
+        tb = traceback.format_exc()
+        sys.stderr.write(tb)
+        print("CHECK-ERROR property=%s %s" % (a.pid, str(e)[:300]))
+        if a.replay:
+            return 2
+        try:
+            chk = vlib.Check(a.pid, a.tier)
+            chk.oblige("machinery: %s" % type(e).__name__, False, str(e)[:300])
+            chk.violation("the check could not be carried out: %s" % (str(e).split("\n")[0][:120]),
+                          {"kind": "obligation", "obligation": "machinery step of tools/check.py %s" % a.pid,
+                           "detail": str(e)[:3000], "traceback": tb[-3000:]}, no_input=True, match={"monitor": "machinery"})
+            return chk.finish(level="proof", rule="(check aborted)")
+        except Exception:
+            return 2
 
 
 if __name__ == "__main__":
